@@ -85,10 +85,13 @@ pub mod wal {
             self.0.as_mut().expect("wal taken")
         }
 
-        /// (free bytes of block zero right now, usable bytes of a data block, block size)
+        /// (free bytes of block zero right now, free bytes of an empty data block, block size)
         pub fn caps(&mut self) -> (usize, usize, usize) {
+            use crate::storage::{AvailableSpace, wal::WalBlock};
             let w = self.inner();
-            (w.verif_block_zero_space(), w.max_record_size(), w.stats().block_size)
+            let block_size = w.stats().block_size;
+            let data_cap = WalBlock::new(block_size).available_space().min(w.max_record_size());
+            (w.verif_block_zero_space(), data_cap, block_size)
         }
 
         /// Size a record with these payloads occupies in a block.
